@@ -183,6 +183,9 @@ def run_case(ctx, case):
                       [pts, poly], got, case,
                       np.random.default_rng(int(case.get("seed", 0)) + 1), n=2,
                       kinds=ND_PRESENTATIONS + ["int"])
+    ctx.reuse("points_inside_polygon",
+              lambda q_, p_: np.asarray(gu.points_inside_polygon(q_, p_)), [pts, poly], got,
+              case)
     # ---- options: a smaller tolerance and the progress log must not change answers
     for kw in ({"atol": 0.0}, {"atol": 1e-12}, {"nprint": 1}, {"nprint": 7}):
         ctx.api("points_inside_polygon(opts)")
